@@ -72,7 +72,7 @@ def run_gosmt(run, tier, scratch, idx):
            "-unwind", str(run.get("unwind", 64)),
            "-bounds", run.get("bounds", ""),
            "-conc-limit", str(run.get("conc_limit", 64)),
-           "-samples", "3", "-vio-grace", str(run.get("vio_grace", 40)),
+           "-samples", "8", "-vio-grace", str(run.get("vio_grace", 40)),
            "-out", out]
     cmd += ["-max-seconds", str(run.get("max_seconds", 900 if tier == "quick" else 5400))]
     if run.get("max_paths"):
@@ -368,7 +368,10 @@ def run_property(pid, tier, seed, cfg, scratch, t0):
         agg["funcs"].update(summ["funcs"] or [])
         agg["stubs"].update(summ["stubs"] or [])
         for s in (summ["samples"] or [])[:2]:
-            agg["samples"].append({"entry": run["entry"], "bounds": run.get("bounds", ""), **s})
+            agg["samples"].append({"entry": run["entry"], "bounds": run.get("bounds", ""), **{k: v for k, v in s.items() if k != "vector"}})
+        for s in (summ["samples"] or []):
+            if s.get("vector") is not None:
+                agg.setdefault("vectors", []).append((run, s["vector"]))
         agg["runs"].append(dict(entry=run["entry"], pkg=run["pkg"], bounds=run.get("bounds", ""), solver=summ["solver"],
                                 unwind=summ["unwind"], paths=summ["paths"], status=summ["status"],
                                 exhaustive=summ["exhaustive"], stop_reason=summ["stop_reason"],
@@ -423,6 +426,28 @@ def run_property(pid, tier, seed, cfg, scratch, t0):
         res, out = native_replay(pkg, items, scratch, attempts=attempts_cfg, gomaxprocs1=cfg.get("gomaxprocs1", False))
         replay_results.update(res)
         replay_log += out[-2000:]
+    # translator validation: model vectors of sampled violation-free paths are run
+    # through the native build; every assertion the solver discharged must hold there
+    n_validated, n_val_attempted = 0, 0
+    if not cfg.get("no_native_replay") and not all_vios:
+        val_pkg = {}
+        val_paths = []
+        for k, (run, vec) in enumerate(agg.get("vectors", [])[: cfg.get("validation_vectors", 12)]):
+            vpath = os.path.join(scratch, "validate-%d.json" % k)
+            with open(vpath, "w") as f:
+                json.dump({"property": pid, "entry": run["entry"], "kind": "validation", "label": "validation",
+                           "bounds": parse_bounds(run.get("bounds", "")), "inputs": vec}, f)
+            val_pkg.setdefault(run["pkg"], []).append((run["entry"], vpath))
+            val_paths.append(vpath)
+        for pkg, items in val_pkg.items():
+            res, out = native_replay(pkg, items, scratch, attempts=1)
+            for _, vp in items:
+                n_val_attempted += 1
+                r = res.get(vp, "")
+                if r.startswith("PASSED"):
+                    n_validated += 1
+                else:
+                    inconclusive.append("translator validation: a path the solver found violation-free does not pass natively on its model inputs (%s): %s" % (r, vp))
     n_replayed = len(replay_results)
     n_reproduced = 0
     for sig, lst in reps.items():
@@ -504,7 +529,9 @@ def run_property(pid, tier, seed, cfg, scratch, t0):
         "coverage": {
             "states": max(agg["paths"], 0),
             "transitions": max(agg["decisions"], 0),
-            "traces_validated_against_impl": n_reproduced,
+            "traces_validated_against_impl": n_reproduced + n_validated,
+            "translator_validation": {"vectors_run_natively": n_val_attempted, "agreeing": n_validated,
+                                      "what": "model inputs of sampled symbolic paths executed by the native build: all assertions the solver discharged on the path must hold natively"},
             "samples": samples,
             "exhaustive": bool(agg["exhaustive"] and not inconclusive),
             "explanation": cfg.get("explanation", ""),
